@@ -24,8 +24,12 @@ def HTable.eraseIf (t : HTable) (p : Nat → Ent → Bool) : HTable :=
   t.filter fun e => !p e.1 e.2
 
 /-- overwrite the session record stored under `h` (sessions are mutated in place in C++) -/
+def replSess (s : Sess) : Ent → Ent
+  | .sess _ => .sess s
+  | e => e
+
 def HTable.setSess (t : HTable) (h : Nat) (s : Sess) : HTable :=
-  t.map fun e => (e.1, if e.1 == h then (match e.2 with | .sess _ => Ent.sess s | x => x) else e.2)
+  t.map fun e => (e.1, if e.1 == h then replSess s e.2 else e.2)
 
 /-- handle registered for object `oid` (the reverse map `objects`) -/
 def HTable.handleOf (t : HTable) (oid : Nat) : Option Nat :=
